@@ -74,8 +74,8 @@ func init() {
 		return tv(x, t), true
 	}
 	models["time.(Time).Format"] = func(x *Exec, s *State, in ssa.Instruction, a []Value, c *ssa.CallCommon) (Value, bool) {
-		x.declareFun("time_format", []string{sInt, sStr}, sStr)
-		return Value{T: tString, S: app("time_format", a[0].S, a[1].S)}, true
+		x.declareFun("uf_time_format", []string{sInt, sStr}, sStr)
+		return Value{T: tString, S: app("uf_time_format", a[0].S, a[1].S)}, true
 	}
 	models["google.golang.org/protobuf/types/known/durationpb.New"] = func(x *Exec, s *State, in ssa.Instruction, a []Value, c *ssa.CallCommon) (Value, bool) {
 		r := s.allocRef()
